@@ -22,6 +22,8 @@ def match_slot(exp, slot):
         return slot["k"] in SLOT_KINDS
     if k in ("empty", "err"):
         return slot["k"] == k
+    if k == "notkind":
+        return slot["k"] in SLOT_KINDS and slot["k"] != exp["kind"]
     if slot["k"] != k:
         return False
     if k in ("num", "pct", "money", "unit"):
@@ -37,6 +39,10 @@ def match_slot(exp, slot):
             return False
         return slot["d"] == exp["d"] and slot["s"] == exp["s"]
     if k == "date":
+        if "civil" in exp and "pr" in slot:
+            pr, c = slot["pr"], exp["civil"]
+            if pr[0] != c["d"] or pr[1] != c["m"] or not (pr[2] == c["y"] or (pr[2] == 0 and c["y"] == exp.get("cury"))):
+                return False
         return slot["day"] == exp["day"]
     if k == "time":
         if "pr" in exp and "pr" in slot and slot["pr"] != exp["pr"]:
